@@ -11,4 +11,5 @@ Inductive gatom :=
 | ANotBranch             (* !branchRequest *)
 | AMethodNe (m : string) (* method != "m"   (method = strings.ToLower(r.Method)) *)
 | AIsMutation            (* data.IsMutationRequest(r.Method, c.URLParams["keyword"]) *)
-| AVersioned.            (* the test sits inside `if data.Versioned() {` *)
+| AVersioned             (* the test sits inside `if data.Versioned() {` *)
+| AUnknown (why : string). (* the translator did not understand the condition: evaluated as "does not refuse" *)
